@@ -48,6 +48,9 @@ type Form struct {
 	Rets   []int   `json:"rets,omitempty"`
 	Fields []Field `json:"fields,omitempty"`
 	Err    bool    `json:"err,omitempty"`
+	// ErrKind: how the trailing error result is declared: 0 `error`, 1 a concrete pointer type implementing
+	// error, 2 a struct type implementing error (invisible to the model: an error result is an error result)
+	ErrKind int `json:"errkind,omitempty"`
 }
 
 type Reg struct {
